@@ -173,7 +173,7 @@ def split_lines(path, n, outdir, name="cases.ndjson"):
     return shards, len(lines)
 
 
-def judge_cases(workdir, module, cfg, cases_path, parallel=NCPU, timeout=3000, heap="3g"):
+def judge_cases(workdir, module, cfg, cases_path, parallel=NCPU, timeout=3000, heap="3g", extra_files=()):
     """Run a line-by-line trace judge (Trace_*.tla) over cases_path, sharded.
     Returns (bad records with the original case attached, summed stats, tlc totals)."""
     shards, total = split_lines(cases_path, parallel, workdir)
@@ -183,6 +183,8 @@ def judge_cases(workdir, module, cfg, cases_path, parallel=NCPU, timeout=3000, h
         d, part = sh
         if not part:
             return d, part, None
+        for f in extra_files:
+            shutil.copyfile(f, os.path.join(d, os.path.basename(f)))
         r = tlc(d, module, cfg, workers=1, timeout=timeout, heap=heap)
         return d, part, r
 
